@@ -161,7 +161,14 @@ def rule_check_layout(rep: Report, fi: FuncInfo) -> int:
     elif not any(attr_chain(x) in ("self.information_set", "self.parity_set", "self._information_set", "self._parity_set", "self._info_set_config") for x in ast.walk(fi.node)):
         rep.violation("CHECK-LAYOUT", fi, construct, "the check matrix is assembled by fixed column positions and never consults the encoder's information / parity sets: it is wrong for every other layout", node=fi.node)
     else:
-        rep.undecided("CHECK-LAYOUT", fi, construct, "layout code not recognised (expected H[:, parity_set] = I; H[:, information_set] = P^T)", node=fi.node)
+        # recognised wrong idiom: columns selected by a boolean position mask (ascending position order) instead of by
+        # the index list (declared order)
+        bool_names = {a_.targets[0].id for a_ in ast.walk(fi.node) if isinstance(a_, ast.Assign) and isinstance(a_.targets[0], ast.Name) and "torch.bool" in unparse(a_.value)}
+        masked = [k_ for k_ in got if any(isinstance(x_, ast.Name) and x_.id in bool_names for x_ in ast.walk(ast.parse(k_, mode="eval")))]
+        if masked:
+            rep.violation("CHECK-LAYOUT", fi, construct, f"the columns are selected with the boolean mask `{masked[0]}`: a mask assigns in ascending POSITION order, so column j of P^T lands on the j-th smallest information position instead of on information_set[j]; for an index list that is not sorted G.H^T != 0", node=fi.node)
+        else:
+            rep.undecided("CHECK-LAYOUT", fi, construct, "layout code not recognised (expected H[:, parity_set] = I; H[:, information_set] = P^T)", node=fi.node)
     asg = [s for s in stmts_of(fi.body) if isinstance(s, ast.Assign) and attr_chain(s.targets[0]) == "self._check_matrix"]
     if ok_p and ok_i:
         okh = len(asg) == 1 and isinstance(asg[0].value, ast.Name) and all(isinstance(s.targets[0].value, ast.Name) and s.targets[0].value.id == asg[0].value.id for s in stores)
